@@ -6,12 +6,14 @@ package procs
 import (
 	"bytes"
 	"fmt"
+	"math/rand"
 	"net"
 	"os"
 	"os/exec"
 	"path/filepath"
 	"strings"
 	"sync"
+	"sync/atomic"
 	"syscall"
 	"time"
 )
@@ -26,27 +28,42 @@ func Bin(race bool) string {
 	return os.Getenv("RG_SERVER_BIN")
 }
 
-// FreePorts reserves n distinct free TCP ports on 127.0.0.1 (bind to :0, then release).
-// Ports are kept inside the range the server's config accepts (1025..65534).
+// FreePorts reserves n distinct free TCP ports on 127.0.0.1 (bind, then release). The ports are taken from
+// 10000..32000, below the kernel's ephemeral range: a node that is killed and restarted must find its port free
+// again, and an outgoing connection of some other process (or of the harness's own forwarders) can only occupy
+// ephemeral ports.
 func FreePorts(n int) []int {
+	portMu.Lock()
+	defer portMu.Unlock()
+	if portRand == nil {
+		portRand = rand.New(rand.NewSource(time.Now().UnixNano() ^ int64(os.Getpid())<<20))
+	}
 	var ls []net.Listener
 	var ports []int
-	for len(ports) < n {
-		l, err := net.Listen("tcp", "127.0.0.1:0")
+	for tries := 0; len(ports) < n && tries < 100000; tries++ {
+		p := 10000 + portRand.Intn(22000)
+		if portUsed[p] {
+			continue
+		}
+		l, err := net.Listen("tcp", fmt.Sprintf("127.0.0.1:%d", p))
 		if err != nil {
 			continue
 		}
-		p := l.Addr().(*net.TCPAddr).Port
+		portUsed[p] = true
 		ls = append(ls, l)
-		if p > 1024 && p < 65535 {
-			ports = append(ports, p)
-		}
+		ports = append(ports, p)
 	}
 	for _, l := range ls {
 		l.Close()
 	}
 	return ports
 }
+
+var (
+	portMu   sync.Mutex
+	portRand *rand.Rand
+	portUsed = map[int]bool{}
+)
 
 // ring keeps the last bytes written.
 type ring struct {
@@ -101,6 +118,7 @@ type Server struct {
 	waitMu sync.Mutex
 	err    error
 	logf   *os.File
+	killed int32
 }
 
 // Start writes the config files and starts the process; it returns once the port accepts connections.
@@ -253,8 +271,12 @@ func minInt(a, b int) int {
 // Signal sends a signal to the process.
 func (s *Server) Signal(sig syscall.Signal) { _ = s.Cmd.Process.Signal(sig) }
 
+// Killed reports whether the harness killed the process.
+func (s *Server) Killed() bool { return atomic.LoadInt32(&s.killed) == 1 }
+
 // Kill sends SIGKILL to the process group and waits.
 func (s *Server) Kill() {
+	atomic.StoreInt32(&s.killed, 1)
 	if s.Cmd.Process != nil {
 		_ = syscall.Kill(-s.Cmd.Process.Pid, syscall.SIGKILL)
 		_ = s.Cmd.Process.Kill()
